@@ -2,8 +2,10 @@ CONSTANTS
   Names <- MCNames3
   MaxNodes = 5
   AllowDangling = FALSE
+  AllowCycles = TRUE
   CheckSkips = {1}
   FullUpTo = 0
+  OnlyCyclic = FALSE
   MinNodes = 5
 INIT Init
 NEXT Next
